@@ -54,6 +54,7 @@ def opOf (j : Json) : R Op := do
         | _, some e => do pure (.error (← Engine.Driver.exn e))
         | _, _ => throw "bad out"
       pure (.unary ls o)
+    | "crash" => pure (.crash (← (← arrF a "obs").mapM evOf))
     | "openP" => pure (.openP (← optNat a "hdr") (← Engine.Driver.logs a "init_logs") (← Engine.Driver.steps a))
     | "openX" => pure (.openX (← optNat a "hdr") (← Engine.Driver.logs a "init_logs") (← Engine.Driver.steps a))
     | s => throw s!"bad op {s}"
